@@ -117,12 +117,32 @@ fn u16of(v: &Value) -> u16 {
     u16::from_be_bytes([x[0], x[1]])
 }
 
-fn write_bytes<F: std::future::Future<Output = std::io::Result<()>>>(f: impl FnOnce(&'static mut Vec<u8>) -> F) -> Vec<u8> {
-    // the writers take &mut A: AsyncWrite; Vec<u8> implements it
-    let buf: &'static mut Vec<u8> = Box::leak(Box::new(Vec::new()));
-    let ptr = buf as *mut Vec<u8>;
+/// A sink that takes at most `k` bytes per write call, like a socket with little room in its send buffer.
+pub struct Dribble {
+    pub data: Vec<u8>,
+    k: usize,
+}
+impl tokio::io::AsyncWrite for Dribble {
+    fn poll_write(mut self: std::pin::Pin<&mut Self>, _: &mut std::task::Context<'_>, buf: &[u8]) -> std::task::Poll<std::io::Result<usize>> {
+        let n = buf.len().min(self.k);
+        self.data.extend_from_slice(&buf[..n]);
+        std::task::Poll::Ready(Ok(n))
+    }
+    fn poll_flush(self: std::pin::Pin<&mut Self>, _: &mut std::task::Context<'_>) -> std::task::Poll<std::io::Result<()>> {
+        std::task::Poll::Ready(Ok(()))
+    }
+    fn poll_shutdown(self: std::pin::Pin<&mut Self>, _: &mut std::task::Context<'_>) -> std::task::Poll<std::io::Result<()>> {
+        std::task::Poll::Ready(Ok(()))
+    }
+}
+thread_local! { static DRIBBLE: std::cell::Cell<usize> = const { std::cell::Cell::new(usize::MAX) }; }
+
+fn write_bytes<F: std::future::Future<Output = std::io::Result<()>>>(f: impl FnOnce(&'static mut Dribble) -> F) -> Vec<u8> {
+    // the writers take &mut A: AsyncWrite; the sink accepts DRIBBLE bytes per call
+    let buf: &'static mut Dribble = Box::leak(Box::new(Dribble { data: Vec::new(), k: DRIBBLE.with(|d| d.get()) }));
+    let ptr = buf as *mut Dribble;
     block(f(buf)).unwrap();
-    unsafe { *Box::from_raw(ptr) }
+    unsafe { Box::from_raw(ptr) }.data
 }
 
 fn replay_pdu(s: &mut Summary, c: &Value) {
@@ -256,7 +276,13 @@ pub fn replay(args: &[String]) {
     for c in &cases {
         match c["op"].as_str().unwrap_or("") {
             "read" => replay_read(&mut s, c),
-            "pdu" => replay_pdu(&mut s, c),
+            "pdu" => {
+                // once into a sink that takes everything, once into one that takes three bytes per call (short writes)
+                replay_pdu(&mut s, c);
+                DRIBBLE.with(|d| d.set(3));
+                replay_pdu(&mut s, c);
+                DRIBBLE.with(|d| d.set(usize::MAX));
+            }
             o => { eprintln!("unknown op {o}"); std::process::exit(2) }
         }
         if s.samples.len() < 4 && s.evaluations % 20011 < 3 { s.sample(c.clone()); }
